@@ -1,6 +1,6 @@
 (* C18 - HTTP/2 stack is wire-compatible with the reference and respects flow control.
    Only statements here; proofs by `exact`.  HPACK part (frames and flow control follow below). *)
-From Coq Require Import List NArith ZArith Bool.
+From Coq Require Import List NArith ZArith Bool Lia.
 From MV Require Import Lib.HBits Gen.HpackTables Gen.H2Src Model.Hpack
   Proofs.HpackInt Proofs.HpackHuffman Proofs.HpackString Proofs.HpackRepr Proofs.HpackEnc.
 Import ListNotations.
@@ -110,3 +110,38 @@ Proof.
   cbn zeta. split; [vm_compute; reflexivity|].
   repeat constructor; try (vm_compute; reflexivity); try (left; reflexivity).
 Qed.
+
+(* ------------------------------------------------------------------ frames *)
+From MV Require Import Model.H2Frame Proofs.H2FrameStable Proofs.H2FrameRT.
+
+(* c18_frame_roundtrip: for every frame the writers (x/net's Framer.WriteXxx, MFramer.writeXxx) can emit -
+   all ten types with padding / priority / flags, and unknown types - in every reader state that admits the
+   frame (checkFrameOrder), followed by ANY bytes: the reader returns exactly that frame and its length.
+   Bounds: the 24-bit length field and the reader's maxReadSize. *)
+Theorem c18_frame_roundtrip : forall a last last' mx rest,
+  aframe_ok a ->
+  (let '(t, fl, sid, p) := aframe_parts a in len p < 16777216 /\ len p <= mx) ->
+  check_order last (f_hdr (frame_of a)) = HOk last' ->
+  read_raw true last mx (ser_frame a ++ rest) 0 = WFrame (frame_of a) (len (ser_frame a)) last'.
+Proof. exact frame_roundtrip. Qed.
+Print Assumptions c18_frame_roundtrip.
+
+(* the source accepts HEADERS frames with an empty fragment (the switch the theorem above is stated for) *)
+Theorem c18_headers_empty_fragment_accepted : h2_headers_empty_frag_ok = true.
+Proof. exact (eq_refl true). Qed.
+
+(* before the repair (`len(p)-padLength <= 0`) such a frame, which x/net's writer emits and x/net's reader
+   accepts, was a stream error *)
+Theorem c18_headers_empty_fragment_refuted_before_repair :
+  parse_payload false (mkFh 0 T_HEADERS 0 1) [] = HErr EStream /\
+  parse_payload true (mkFh 0 T_HEADERS 0 1) [] = HOk (BHeaders None []).
+Proof. split; vm_compute; reflexivity. Qed.
+
+Example c18_frame_example :
+  let a := AHeaders 5 true false (Some (mkPrio 3 true 200)) [130; 134] (Some 4) in
+  aframe_ok a /\ check_order 0 (f_hdr (frame_of a)) = HOk 5 /\
+  ser_frame a = [0;0;12;1;41;0;0;0;5; 4; 128;0;0;3;200; 130;134; 0;0;0;0].
+Proof. cbn zeta. split; [unfold aframe_ok, sid_ok, pad_ok, prio_ok, two31; cbn; lia | split; vm_compute; reflexivity]. Qed.
+
+(* with C07's theorem (Props/C07_h2.v c07_h2_segmentation_independent) every frame sequence parses
+   identically however it is cut. *)
